@@ -202,12 +202,17 @@ fn parse_eq_delegate_by(
         return Ok(SpanOpt(Delegate::ByRef(RefDelegate::AsRef), span));
     }
 
-    // `Self` is a keyword, which `syn::Ident` does not parse
-    let ident = input.call(<syn::Ident as syn::ext::IdentExt>::parse_any)?;
+    // `Self` is a keyword, which `syn::Ident` does not parse (and the only keyword that means something here)
+    if input.peek(syn::token::SelfType) {
+        let _: syn::token::SelfType = input.parse()?;
+
+        return Ok(SpanOpt(Delegate::BySelf, span));
+    }
+
+    let ident: syn::Ident = input.parse()?;
 
     Ok(SpanOpt(
         match ident.to_string().as_str() {
-            "Self" => Delegate::BySelf,
             "Borrow" => Delegate::ByRef(RefDelegate::Borrow),
             _ => Delegate::ByTrait(ident),
         },
